@@ -160,6 +160,10 @@ func runC06(r *Report) {
 // writerTable extracts, for each case of Write's type switch, id / length / field order.
 func writerTable(r *Report, write *ssa.Function) map[string]wireEntry {
 	out := map[string]wireEntry{}
+	nLayout := 0
+	defer func() {
+		r.Notes = append(r.Notes, fmt.Sprintf("R1: %d of %d writer cases resolved by symbolic evaluation of the bytes written, the rest by the helper-call table", nLayout, len(out)))
+	}()
 	helperLen := func(h *ssa.Function) int64 {
 		// fixed length = constant passed to the first AppendUint32 in the helper
 		l := int64(-1)
@@ -192,7 +196,35 @@ func writerTable(r *Report, write *ssa.Function) map[string]wireEntry {
 			return
 		}
 		e := wireEntry{ID: -1, Sub: -1, Length: -1, Pos: ta.Pos()}
-		// calls in the case region, in source order
+		// first choice: evaluate what the case puts on the wire (independent of which helper assembles the frame)
+		if lay := writeLayout(write, caseB); lay.Unknown == "" && len(lay.Items) >= 2 && lay.Items[0].Bits == 32 && lay.Items[1].Bits == 8 {
+			if k, ok := constInt(lay.Items[0].Val); ok {
+				e.Length = k
+			}
+			if k, ok := constInt(lay.Items[1].Val); ok {
+				e.ID = k
+			}
+			rest := lay.Items[2:]
+			if e.ID == 20 {
+				if len(rest) > 0 && rest[0].Bits == 8 {
+					if k, ok := constInt(rest[0].Val); ok {
+						e.Sub = k
+					}
+				}
+				rest = nil // the payload of extended messages is a dictionary: compared by its keys (R2)
+			}
+			for _, it := range rest {
+				if f, _ := loadedFieldAny(stripIntConv(it.Val)); f != nil {
+					e.Fields = append(e.Fields, f.Name())
+				}
+			}
+			if e.ID >= 0 {
+				out[name] = e
+				nLayout++
+				return
+			}
+		}
+		// fallback: calls in the case region, in source order
 		var calls []*ssa.Call
 		for b := range reachableFrom(caseB) {
 			if !caseB.Dominates(b) {
